@@ -297,7 +297,8 @@ fn parse_at_rule(
                             ss.append_token(st, input, Some(peek.token.clone()));
                             match xs {
                                 "layer" => {
-                                    convert_class_names_and_rpx_in_block(input, ss);
+                                    // a (possibly dotted) layer name, not a selector
+                                    convert_rpx_in_block(input, ss, None);
                                 }
                                 "supports" => {
                                     let st =
@@ -412,6 +413,12 @@ fn parse_at_rule(
                                 ss.append_nested_block_close(close, input);
                             });
                             return Ok(false);
+                        }
+                        Token::Function(name) if name.eq_ignore_ascii_case("layer") => {
+                            // `@import ... layer(a.b)`: a (possibly dotted) layer name, not a selector
+                            let close = ss.append_nested_block(next, input);
+                            convert_rpx_in_block(input, ss, None);
+                            ss.append_nested_block_close(close, input);
                         }
                         Token::SquareBracketBlock
                         | Token::ParenthesisBlock
